@@ -8,7 +8,12 @@ from harness import core
 ID = 'C10'
 TITLE = 'Removing rows leaves no references to them'
 PROPS = ['Props/C10', 'Props/C10_code']
-RULE = ('(L1) random op sequences (set/unset/growto/copy_from_column/clear; right-type, wrong-type, out-of-range, '
+RULE = ('(L0) relation.ReferenceRelation.{get_affected_rows,add_reference,remove_reference,clear}, column.BaseReferenceColumn.'
+        '{_update_references,set,clear,copy_from_column,get_updates_for_removed_target_rows,_raw_get_without}, BaseColumn.unset, '
+        'ReferenceListColumn._raw_get_without and the skip condition of the clean-up loop of doBulkRemoveRecord are REGENERATED from '
+        'source on every run (harness/k4tr.py -> coq/gen/K4_gen.v), proved equal to the hand model (Props/C10_code.v), and evaluated '
+        'against the running methods; the remaining glue is pinned by AST hash (harness/k4pins.json); '
+        '(L1) random op sequences (set/unset/growto/copy_from_column/clear; right-type, wrong-type, out-of-range, '
         'string-hack values, RefList cells holding the same target id more than once: adjacent, non-adjacent, all equal) '
         'on REAL ReferenceColumn/ReferenceListColumn objects vs the model, and (L1b) get_updates_for_removed_target_rows '
         'of the real column after such a sequence (the repeated id removed alone and with others) vs the model; '
@@ -24,7 +29,10 @@ RULE = ('(L1) random op sequences (set/unset/growto/copy_from_column/clear; righ
         'filled by new records and by explicit updates, record/column/table '
         'removals (also through the metadata tables), Ref<->RefList switches; a separate stream adds ReplaceTableData. '
         'A case is non-trivial when references exist / a removal hits a referenced row')
-TRUSTED = ['Model/RefIndex.v is hand-written; it is compared with the running code on every run at three levels '
+TRUSTED = ['harness/k4tr.py + k4tr_specs.py: fail-closed translator of the methods listed under (L0) and its primitives '
+           'Model/K4Support.v; validated on every run against the running methods; glue not translated (BaseColumn.set/clear/'
+           'growto/raw_get/safe_get, is_right_type, the rest of doBulkRemoveRecord, docactions) is pinned by AST equality',
+           'Model/RefIndex.v is hand-written; it is compared with the running code on every run at three levels '
            '(column objects, recorded call traces of real histories, whole record removals), evaluated by vm_compute',
            'ReferenceListColumn._clean_up_value on strings (json.loads / RecordList.from_repr) is an uninterpreted '
            'function of the model (theorems hold for every such function); the harness tabulates it from the running code',
